@@ -30,13 +30,13 @@ Definition mk_op (o : kop) : op :=
 
 (** observation blob: code, n, added (path,"d"|"f",content)*n, n, removed*n,
     same? (the catalog's view is unchanged since the previous step), [n, tbk (s,t,a)*n, n, files (path,year)*n],
-    fresh?, [fresh code, n, tbk*n, n, files*n] *)
+    fresh? (0 none, 1 explicit, 2 identical to the catalog's view of this step), fresh code, [n, tbk*n, n, files*n] *)
 Record obs_step := {
   s_code : nat;
   s_add : list (list byte * list byte * list byte);
   s_del : list (list byte * list byte * list byte);
   s_view : option (list (list byte) * list (list byte));    (* None = same as after the previous step *)
-  s_fresh : option (nat * list (list byte) * list (list byte))
+  s_fresh : option (nat * option (list (list byte) * list (list byte)))   (* inner None = identical to this step's view *)
 }.
 
 Definition dec_obs (p : positive) : obs_step :=
@@ -55,11 +55,13 @@ Definition dec_obs (p : positive) : obs_step :=
         end in
       let fresh := match r4 with
                    | fl :: fc :: r5 =>
-                       if dec_bool fl then
-                         let '(ftbk, r6) := counted 3 r5 dec_nat in
-                         let '(ffiles, _) := counted 2 r6 dec_nat in
-                         Some (dec_nat fc, ftbk, ffiles)
-                       else None
+                       match dec_nat fl with
+                       | 0 => None
+                       | 1 => let '(ftbk, r6) := counted 3 r5 dec_nat in
+                              let '(ffiles, _) := counted 2 r6 dec_nat in
+                              Some (dec_nat fc, Some (ftbk, ffiles))
+                       | _ => Some (dec_nat fc, None)
+                       end
                    | _ => None
                    end in
       {| s_code := dec_nat code; s_add := chunk3 adds; s_del := chunk3 dels; s_view := view; s_fresh := fresh |}
@@ -121,9 +123,12 @@ Definition step_agrees (root : list byte) (o : kop) (w0 w : world) (c0 c : catal
      end
   && match s_fresh s with
      | None => true
-     | Some (fc, ftbk, ffiles) =>
+     | Some (fc, Some (ftbk, ffiles)) =>
          let '(c', k) := fresh_cat root w in
          (k =? fc)%nat && fields_eqb (cat_tbk c') ftbk && fields_eqb (cat_files c') ffiles
+     | Some (fc, None) =>
+         let '(c', k) := fresh_cat root w in
+         (k =? fc)%nat && fields_eqb (cat_tbk c') (cat_tbk c) && fields_eqb (cat_files c') (cat_files c)
      end.
 
 (** one model step (a restart replaces the catalog by a fresh scan: OpRestart) *)
